@@ -8,6 +8,8 @@ Core Lean only (compiled into the driver).  Mirrors
   (generic scalar `K`; a dimension vector is a `List Int` of exponents of the base dimensions,
   a scale is a `List (Option K)` of base-unit magnitudes, a unit is its conversion factor to
   base units together with its dimension vector — pint's table is an *input* of the model);
+  offset units (`degC`, `degF`) are affine units `AffUnit` (conversion factor, offset, dimension vector)
+  with `nondimAff` / `dimensionalizeAff` / `convertAff` mirroring pint's order of operations;
 * `PrimitiveEquationsSpecs.nondimensionalize_timedelta64 / dimensionalize_timedelta64`
   (as repaired in commit 35952ac: round to microseconds, then truncate; scalar and array path),
   `xarray_utils.datetime64_to_nondim_time / nondim_time_to_datetime64 /
@@ -98,6 +100,57 @@ def nondimVec (sc : List (Option K)) (u : UnitV K) (ms : List K) : Option (List 
 
 def dimensionalizeVec (sc : List (Option K)) (u : UnitV K) (vs : List K) : Option (List K) :=
   (factor sc u.dim).map (fun f => vs.map (fun v => v * f / u.conv))
+
+/-! ## affine (offset) units: degree Celsius, degree Fahrenheit
+
+The registry of `scales.py` is created with `autoconvert_offset_to_baseunit=True`, so a quantity in an
+offset unit is admissible: pint converts it to base units before it is divided by the scaling factor
+(`OffsetConverter.to_reference`: `value * scale + offset`), and `Quantity.to(unit)` finishes with
+`OffsetConverter.from_reference`: `(value - offset) / scale`.  An affine unit is its conversion factor
+and offset to the base unit together with its dimension vector (again an *input* of the model).
+Only *plain* offset units are in the domain (`degC`, `degF`, exponent 1, no other factor): for a compound
+unit built from an offset unit (`units.degC / units.m`) the code raises (`OffsetUnitCalculusError` /
+`DimensionalityError`), and pint's parser turns the string `'degC/m'` into the multiplicative
+`delta_degC / m`, which is a `UnitV`. -/
+
+/-- an affine unit: `value_base = value * conv + off` -/
+structure AffUnit (K : Type) where
+  conv : K
+  off : K
+  dim : List Int
+
+/-- a multiplicative unit is the affine unit with offset 0 -/
+def AffUnit.ofUnit (u : UnitV K) : AffUnit K := ⟨u.conv, 0, u.dim⟩
+
+/-- `OffsetConverter.to_reference`: magnitude in base units -/
+def AffUnit.toBase (u : AffUnit K) (m : K) : K := m * u.conv + u.off
+
+/-- `OffsetConverter.from_reference`: magnitude of a base-unit value in the unit -/
+def AffUnit.fromBase (u : AffUnit K) (b : K) : K := (b - u.off) / u.conv
+
+/-- magnitude of `Quantity(m, u).to(u')` for two affine units of the same dimension -/
+def convertAff (u u' : AffUnit K) (m : K) : K := u'.fromBase (u.toBase m)
+
+/-- `Scale.nondimensionalize` of `Quantity(m, u)`: pint converts to base units first (autoconvert), then
+divides by the scaling factor -/
+def nondimAff (sc : List (Option K)) (u : AffUnit K) (m : K) : Option K :=
+  (factor sc u.dim).map (fun f => u.toBase m / f)
+
+/-- magnitude of `Scale.dimensionalize(v, u)`: `(v * factor)` in base units, then `.to(u)` -/
+def dimensionalizeAff (sc : List (Option K)) (u : AffUnit K) (v : K) : Option K :=
+  (factor sc u.dim).map (fun f => u.fromBase (v * f))
+
+def nondimAffVec (sc : List (Option K)) (u : AffUnit K) (ms : List K) : Option (List K) :=
+  (factor sc u.dim).map (fun f => ms.map (fun m => u.toBase m / f))
+
+def dimensionalizeAffVec (sc : List (Option K)) (u : AffUnit K) (vs : List K) : Option (List K) :=
+  (factor sc u.dim).map (fun f => vs.map (fun v => u.fromBase (v * f)))
+
+/-- NOT the code: the variant that expresses the scaling factor in the requested unit once and multiplies
+the value by its magnitude (`value * factor.to(unit).magnitude`).  It agrees with `dimensionalizeAff`
+on every unit with offset 0 and is wrong on every other one (negative witness of C18). -/
+def dimensionalizeLinearised (sc : List (Option K)) (u : AffUnit K) (v : K) : Option K :=
+  (factor sc u.dim).map (fun f => v * u.fromBase f)
 
 /-! ## `Scale.__init__` -/
 
